@@ -3,6 +3,9 @@
 import json, os
 HOOK_COMMITS = ["1d323e3"]
 CHECKS = {
+ "C07": dict(cat="fault_enumeration", tech="runtime monitoring: residue invariant at the VM state hook after every host API call over generated operation histories with planted faults + relational monitor against a fresh instance replaying only the completed effects",
+   text="About 65 000 histories (570 000 host calls) per quick run on persistent Koto instances: succeeding scripts, scripts failing through 36 planted fault kinds after explicit effects, exported-function calls with good and bad arguments, native calls with good and bad arguments, throwing displays, compile errors, timeouts. After every call the VM state (registers, frames, builders, catch points, execution state, module placeholders) must equal the calibrated quiescent state; at the end exports and a probe battery must agree with a fresh instance that performed only the completed effects. Thorough runs use histories of up to 120 operations (register-creep horizon).",
+   note="Trusted: hooks H1/H2 (read-only state snapshot); effects are explicit in the scripts, so no model of Koto is involved. Import failures are covered by C18.", ref="4 C07, 3.4.5"),
  "C16": dict(cat="exploration", tech="runtime monitoring: bounded-exhaustive hint grid against a small model of the documented matching rule + relational monitor between real runs with type checks on and off + differential monitor against the reference model",
    text="The complete grid of 14 hint positions x 22 hint names x {plain, ?} x 22 values (about 27 000 cells, each with type checks on and off) is executed by the real implementation: assert positions must raise exactly on mismatch (never with checks off), match / catch positions must fall through instead and keep selecting with checks off. Generated programs of four kgen profiles carrying hints (a few wrong) are compared with the reference model with checks on and, when they passed, with their own run with checks off.",
    note="Matching model written from the guide; guide-silent cells (Generator vs Callable, Object for untyped metamaps, Iterable for metamaps, @type inherited through @base) are pinned. Host objects are covered by C17, not here.", ref="4 C16"),
